@@ -4673,6 +4673,7 @@ func (c *linkerContext) generateCodeForFileInChunkJS(
 	dataForSourceMaps []bundler.DataForSourceMap,
 ) {
 	defer c.recoverInternalError(waitGroup, partRange.sourceIndex)
+	verif.GatePanic("link.print.panic", verifFileKey(c, partRange.sourceIndex))
 
 	file := &c.graph.Files[partRange.sourceIndex]
 	repr := file.InputFile.Repr.(*graph.JSRepr)
@@ -5570,6 +5571,7 @@ func (c *linkerContext) renameSymbolsInChunk(chunk *chunkInfo, filesInOrder []ui
 
 func (c *linkerContext) generateChunkJS(chunkIndex int, chunkWaitGroup *sync.WaitGroup) {
 	defer c.recoverInternalError(chunkWaitGroup, runtime.SourceIndex)
+	verif.GatePanic("link.chunk.panic", verifChunkKey(c, chunkIndex))
 
 	chunk := &c.chunks[chunkIndex]
 
@@ -5675,6 +5677,7 @@ func (c *linkerContext) generateChunkJS(chunkIndex int, chunkWaitGroup *sync.Wai
 	}
 
 	waitGroup.Wait()
+	verif.GatePanic("link.chunk.panic.late", verifChunkKey(c, chunkIndex))
 	timer.End("Print JavaScript files")
 	timer.Begin("Join JavaScript files")
 
@@ -6100,6 +6103,7 @@ type compileResultCSS struct {
 
 func (c *linkerContext) generateChunkCSS(chunkIndex int, chunkWaitGroup *sync.WaitGroup) {
 	defer c.recoverInternalError(chunkWaitGroup, runtime.SourceIndex)
+	verif.GatePanic("link.chunk.panic", verifChunkKey(c, chunkIndex))
 
 	chunk := &c.chunks[chunkIndex]
 
@@ -6256,6 +6260,7 @@ func (c *linkerContext) generateChunkCSS(chunkIndex int, chunkWaitGroup *sync.Wa
 
 			if entry.kind == cssImportSourceIndex {
 				defer c.recoverInternalError(&waitGroup, entry.sourceIndex)
+				verif.GatePanic("link.print.panic", verifFileKey(c, entry.sourceIndex))
 				file := &c.graph.Files[entry.sourceIndex]
 
 				// Only generate a source map if needed
